@@ -1,20 +1,23 @@
 import Enc.Model.Json.CodecChoice
 /-!
-# The type graph, and the shape excluded from `choose_eq_std`: an embedding edge that lies on a cycle
+# The type graph, and the shape excluded from `choose_eq_std`: a cycle made of EMBEDDED structs only
 
 `children env t`: the types of the values a value of type `t` directly holds (element, pointer target, map value, field
 types; map keys are written as text and never entered). `Reach env a b`: `b` occurs inside `a` (reflexive, transitive).
 `embeds env S`: the struct types whose fields `S` promotes (anonymous untagged fields of struct kind, directly or through
-one unnamed pointer).
+one unnamed pointer). `EmbReach env a b`: `b` is reached from `a` through embedding alone.
 
-`NoEmbedCycle env t`: no struct type `S` inside `t` embeds a struct type that contains `S` again
-(`type T struct { X int; F []struct{ T } }`, `type T struct { *T }`). That is the precise shape of the recorded finding
-`jsonEmbeddedStructUnderConstruction`: segmentio takes the promoted fields from a struct type that is still being built.
+`NoEmbeddedCycle env t`: no struct type `S` inside `t` embeds a struct type that embeds … embeds `S` again
+(`type X struct { *Y; A int }; type Y struct { *X; B int }`). In such a cycle segmentio (since the repair of
+`jsonEmbeddedStructUnderConstruction`: json/codec.go `structType.root`) cuts the promotion where the cycle closes, and
+keeps the struct types built on the way — with the cut — as THE struct types of their keys, also for regular
+occurrences; encoding/json computes the fields of every struct type on its own. A cycle through a REGULAR field
+(`type T struct { X int; F []struct{ T } }`) is not excluded any more: the embedded type is listed a second time.
 
-`embedsRecursive env t : Bool` is a decidable certificate checker for the negation: it computes the set of types inside
-`t` by saturation, CHECKS that the set is closed under `children` (so no argument about the number of rounds is needed),
-and does the same from every embedded type. `embedsRecursive env t = false → NoEmbedCycle env t`
-(`embedsRecursive_sound`).
+`embedCycle env t : Bool` is a decidable certificate checker for the negation: it computes the set of types inside `t`
+by saturation, CHECKS that the set is closed under `children` (so no argument about the number of rounds is needed),
+and does the same from every embedded type with `embeds`. `embedCycle env t = false → NoEmbeddedCycle env t`
+(`embedCycle_sound`).
 -/
 namespace Enc.Spec.Json.EmbedCycle
 open Enc.Model.Json.CodecChoice
@@ -44,9 +47,14 @@ def embedsFL (env : Env) : FL → List TD
 /-- the struct types whose fields `t` promotes -/
 def embeds (env : Env) (t : TD) : List TD := embedsFL env (fieldsOf env t)
 
-/-- no struct type inside `t` embeds a struct type that contains the embedding struct again -/
-def NoEmbedCycle (env : Env) (t : TD) : Prop :=
-  ∀ S typ, Reach env t S → typ ∈ embeds env S → ¬ Reach env typ S
+/-- `b` is reached from `a` through embedding alone -/
+inductive EmbReach (env : Env) : TD → TD → Prop
+  | refl (t : TD) : EmbReach env t t
+  | step {a b c : TD} : EmbReach env a b → c ∈ embeds env b → EmbReach env a c
+
+/-- no struct type inside `t` lies on a cycle of embedded structs -/
+def NoEmbeddedCycle (env : Env) (t : TD) : Prop :=
+  ∀ S typ, Reach env t S → typ ∈ embeds env S → ¬ EmbReach env typ S
 
 /-! ## the decidable checker -/
 
@@ -71,13 +79,40 @@ def closureFuel (env : Env) (t : TD) : Nat := t.size + env.length * (maxDef env 
 /-- the types inside `t` -/
 def inside (env : Env) (t : TD) : List TD := closure env (closureFuel env t) [t]
 
-/-- `true` unless it is CERTIFIED that no struct inside `t` embeds a struct type that contains it again -/
-def embedsRecursive (env : Env) (t : TD) : Bool :=
+/-- one saturation step with an arbitrary successor function -/
+def closeStepW (next : TD → List TD) (acc : List TD) : List TD :=
+  acc.foldl (fun acc' x => addNew acc' (next x)) acc
+
+def closureW (next : TD → List TD) : Nat → List TD → List TD
+  | 0, acc => acc
+  | n + 1, acc =>
+    let acc' := closeStepW next acc
+    if acc'.length == acc.length then acc else closureW next n acc'
+
+def isClosedW (next : TD → List TD) (c : List TD) : Bool :=
+  c.all fun x => (next x).all fun y => c.contains y
+
+/-- the struct types reached from `t` through embedding alone -/
+def embInside (env : Env) (t : TD) : List TD := closureW (embeds env) (closureFuel env t) [t]
+
+/-- `true` unless it is CERTIFIED that no struct inside `t` lies on a cycle of embedded structs -/
+def embedCycle (env : Env) (t : TD) : Bool :=
   let c := inside env t
   !(c.contains t && isClosed env c &&
       c.all fun S => (embeds env S).all fun typ =>
-        let c' := inside env typ
-        c'.contains typ && isClosed env c' && !c'.contains S)
+        let c' := embInside env typ
+        c'.contains typ && isClosedW (embeds env) c' && !c'.contains S)
+
+theorem closedW_embReach (env : Env) (c : List TD) (hc : isClosedW (embeds env) c = true) (x y : TD) (hx : x ∈ c)
+    (h : EmbReach env x y) : y ∈ c := by
+  induction h with
+  | refl => exact hx
+  | @step b z _ hmem ih =>
+    unfold isClosedW at hc
+    rw [List.all_eq_true] at hc
+    have := hc b ih
+    rw [List.all_eq_true] at this
+    simpa using this z hmem
 
 theorem closed_reach (env : Env) (c : List TD) (hc : isClosed env c = true) (x y : TD) (hx : x ∈ c)
     (h : Reach env x y) : y ∈ c := by
@@ -90,8 +125,8 @@ theorem closed_reach (env : Env) (c : List TD) (hc : isClosed env c = true) (x y
     rw [List.all_eq_true] at this
     simpa using this z hmem
 
-theorem embedsRecursive_sound (env : Env) (t : TD) (h : embedsRecursive env t = false) : NoEmbedCycle env t := by
-  unfold embedsRecursive at h
+theorem embedCycle_sound (env : Env) (t : TD) (h : embedCycle env t = false) : NoEmbeddedCycle env t := by
+  unfold embedCycle at h
   simp only [Bool.not_eq_false', Bool.and_eq_true] at h
   obtain ⟨⟨ht, hcl⟩, hall⟩ := h
   intro S typ hS htyp hback
@@ -102,8 +137,8 @@ theorem embedsRecursive_sound (env : Env) (t : TD) (h : embedsRecursive env t = 
   have h2 := h1 typ htyp
   simp only [Bool.and_eq_true, Bool.not_eq_true'] at h2
   obtain ⟨⟨ht2, hcl2⟩, hnot⟩ := h2
-  have := closed_reach env _ hcl2 typ S (by simpa using ht2) hback
-  have hc : (inside env typ).contains S = true := by simpa using this
+  have := closedW_embReach env _ hcl2 typ S (by simpa using ht2) hback
+  have hc : (embInside env typ).contains S = true := by simpa using this
   rw [hc] at hnot
   cases hnot
 
